@@ -682,6 +682,34 @@ func renderNewick(ts gen.TreeSpec) string {
 	return b.String()
 }
 
+// plainWriter is an io.Writer and nothing else (a bytes.Buffer also offers WriteByte,
+// WriteString and ReadFrom, which a writer may treat specially).
+type plainWriter struct{ b *bytes.Buffer }
+
+func (p plainWriter) Write(data []byte) (int, error) { return p.b.Write(data) }
+
+// writePlain writes through a plainWriter and returns the bytes.
+func writePlain(write func(io.Writer) error) ([]byte, error) {
+	var b bytes.Buffer
+	var err error
+	if p := catch(func() { err = write(plainWriter{&b}) }); p != nil {
+		return nil, fmt.Errorf("Write to a plain io.Writer panicked: %v", p)
+	}
+	return b.Bytes(), err
+}
+
+// samePlain verifies that Write produces the same bytes on a plain io.Writer as on a bytes.Buffer.
+func samePlain(write func(io.Writer) error, want []byte) error {
+	got, err := writePlain(write)
+	if err != nil {
+		return fmt.Errorf("Write to a plain io.Writer failed: %v", err)
+	}
+	if !bytes.Equal(got, want) {
+		return fmt.Errorf("Write to a plain io.Writer (no WriteByte/WriteString) produces %s, to a bytes.Buffer %s", gen.Abbrev(got), gen.Abbrev(want))
+	}
+	return nil
+}
+
 // writeAfterFailure: a Write whose destination failed half-way leaves nothing behind - the next
 // Write of the record to a healthy destination produces the same bytes as before.
 func writeAfterFailure(write func(io.Writer) error, want []byte) error {
